@@ -12,4 +12,10 @@ def contracts():
         out.append(solvers.step_contract(ivp.Cfg(layout, "dynamic", "filter", "ts0", q=1, d=2)))
         out.append(solvers.step_contract(ivp.Cfg(layout, "mle", "fixedpoint", "ts1", q=1, d=1)))
     out.append(lemmas.equivariance_contract())
+    # the scale reported at checkpoints (dynamic mode: the estimate of the step that contains / ends at the checkpoint)
+    from contracts import interp
+
+    for layout in ("dense", "isotropic", "blockdiag"):
+        c = ivp.Cfg(layout, "dynamic", "filter", "ts0", q=1, d=1)
+        out += [interp.interpolate_fwd_contract(c), interp.interpolate_at_t1_contract(c)]
     return out
